@@ -587,6 +587,63 @@ func rulesC12(c *Ctx) {
 		}
 	})
 
+	c.Rule("R-C12-5", "the client puts the per-request metadata (from which the mirrored headers are derived and which the server's gate demands) on every request it sends on the 2026-07-28 protocol: under usesNewProtocol() no handleSend is reachable without injectRequestMeta, except for a closed table of methods", func() {
+		hs := c.FnObj(pM, "", "handleSend")
+		inj := c.FnObj(pM, "", "injectRequestMeta")
+		unp := c.FnObj(pM, "ClientSession", "usesNewProtocol")
+		// method constant → why no metadata is injected there
+		exempt := map[string]string{
+			"methodInitialize": "legacy handshake: the metadata travels in the initialize params",
+			"methodDiscover":   "Client.discover builds the probe's _meta itself before any session state exists",
+			"methodPing":       "ping is served by the gate without metadata on every protocol version",
+			"methodSetLevel":   "logging/setLevel exists only on the legacy protocol (2026-07-28 carries the level in _meta)",
+		}
+		n := 0
+		for _, f := range c.funcsWithLits(pM) {
+			if f.Lit != nil || f.Recv() == nil {
+				if f.Lit != nil {
+					continue
+				}
+			}
+			calls := f.CallsIn(f.Body, hs, false)
+			if len(calls) == 0 || f.Obj == hs {
+				continue
+			}
+			recvIsCS := f.Recv() != nil && isNamedType(f.Recv().Type(), modPath+"/"+pM, "ClientSession")
+			if !recvIsCS && f.ParamOfNamed(pM, "ClientSession") == nil {
+				continue
+			}
+			g := f.Graph()
+			for _, call := range calls {
+				mname := exprStr(call.Args[1])
+				key := f.Name() + ":" + mname
+				if why, ok := exempt[mname]; ok {
+					c.Ok("meta-injected:"+key, f, call, "exempt: %s", why)
+					continue
+				}
+				n++
+				injected := func(v int) bool { return g.Node(v) != nil && f.ContainsCall(g.Node(v), inj) }
+				seen := g.ReachUnder(func(e ast.Expr) tri {
+					if ce, ok := ast.Unparen(e).(*ast.CallExpr); ok && f.IsCallTo(ce, unp) {
+						return triTrue
+					}
+					return triUnknown
+				}, injected)
+				hv := g.VertexOf(call)
+				// (ReachUnder enters the entry vertex unconditionally: a function whose first statement injects is fine)
+				firstInjects := false
+				for v := g.Entry; v < g.N && !firstInjects; v++ {
+					if g.Node(v) != nil {
+						firstInjects = injected(v)
+						break
+					}
+				}
+				c.Check(!seen[hv] || injected(hv) || firstInjects, "meta-injected:"+key, f, call, "on the new protocol this request cannot be sent without injectRequestMeta having filled _meta (the server answers -32602 to a request without it, and the mirrored headers would be missing)")
+			}
+		}
+		c.Pin("client request sites subject to the metadata rule", n, 12)
+	})
+
 	c.Rule("R-C12-3", "client encoder and server validator agree on the value space: same skip conditions, absence decided by presence (not by emptiness), same base64 wrapper, same integer range", func() {
 		vph := c.Fn(pM, "", "validateParamHeaders")
 		g := vph.Graph()
